@@ -20,6 +20,7 @@ def tasks(tier, seed):
         func("bt.core.SecurityBase.transact"),
         func("bt.core.SecurityBase.outlay"),
         func("bt.core.StrategyBase.adjust"),
+        func("bt.core.StrategyBase.allocate"),      # capital moved between a parent and a sub-strategy: the parent is debited exactly what the child is credited, whatever their kinds
         func("bt.core.StrategyBase.set_commissions"),      # the fee schedule a security is charged by is its parent's: inherited by every sub-strategy, at any depth
         func("bt.core.SecurityBase.allocate"),
         *UPDATE_ALL,
